@@ -145,7 +145,9 @@ func runFrames(c *mon.Case, r *mon.Run, dir string, victim string, specs []frame
 	res.mismatch = -1
 	readerDone := make(chan struct{})
 	c.Go(func() { close(readerDone) }, func() {
-		buf := make([]byte, 4096)
+		// the application's read buffer size matters: errors must surface
+		// however much of the decoded data one Read can take
+		buf := make([]byte, []int{4096, 1, 7, 100, 1024, 20000}[seed%6])
 		var n64 int64
 		extraReads := 0
 		for {
@@ -172,6 +174,7 @@ func runFrames(c *mon.Case, r *mon.Run, dir string, victim string, specs []frame
 					return
 				}
 			}
+			r.Distinct("app_read_buffer_sizes", fmt.Sprint(len(buf)))
 		}
 	})
 	sender := rc.Conn
@@ -485,7 +488,7 @@ func blind(c *mon.Case, r *mon.Run, dir string, op string, chunkIdx int, seed ui
 	var rerr error
 	rdDone := make(chan struct{})
 	c.Go(func() { close(rdDone) }, func() {
-		buf := make([]byte, 3000)
+		buf := make([]byte, []int{3000, 1, 64, 1024, 20000}[seed%5])
 		for {
 			n, err := cc.Read(buf)
 			if n > 0 {
